@@ -164,7 +164,9 @@ def r1_snapshot_last(ctx):
     for n in walk_local(snap.node):
         if isinstance(n, ast.Await):
             v = n.value
-            hit = isinstance(v, ast.Name) and v.id in fut_names
+            hit = (isinstance(v, ast.Name) and v.id in fut_names) or (
+                isinstance(v, ast.Call) and (dotted(v.func) or '') in ('asyncio.wrap_future', 'asyncio.shield', 'asyncio.wait_for') and any(isinstance(a, ast.Name) and a.id in fut_names for a in v.args)
+            )
             if isinstance(v, ast.Call):
                 f = v.func
                 if isinstance(f, ast.Attribute) and f.attr == 'run_in_executor':
